@@ -277,7 +277,7 @@ func (g *Gen) typeInv(v string, t types.Type) string {
 			return "(>= (strlen " + v + ") 0)"
 		}
 	case *types.Slice:
-		return "(and (>= (soff " + v + ") 0) (>= (slen " + v + ") 0) (>= (scap " + v + ") (slen " + v + ")) (=> (= (sarr " + v + ") Nil) (= (scap " + v + ") 0)))"
+		return "(and (>= (soff " + v + ") 0) (>= (slen " + v + ") 0) (>= (scap " + v + ") (slen " + v + ")) (<= (+ (soff " + v + ") (scap " + v + ")) 4611686018427387904) (=> (= (sarr " + v + ") Nil) (= (scap " + v + ") 0)))"
 	case *types.Interface:
 		return "(=> (= (itag " + v + ") 0) (= " + v + " nilIface))"
 	case *types.Struct:
